@@ -49,11 +49,14 @@ SETS = {
         'imm': {'type': 'numeric', 'bytecode': {'value': 0, 'size': 2}, 'argument': {'size': 8, 'byte_align': True}},
     }},
     'regs': {'operand_values': {
-        'r_a': {'type': 'register', 'register': 'a', 'bytecode': {'value': 0, 'size': 2}},
-        'r_x': {'type': 'register', 'register': 'x', 'bytecode': {'value': 1, 'size': 2}},
-        'ind_hl': {'type': 'indirect_register', 'register': 'hl', 'bytecode': {'value': 2, 'size': 2},
+        'r_a': {'type': 'register', 'register': 'a', 'bytecode': {'value': 0, 'size': 3}},
+        'r_x': {'type': 'register', 'register': 'x', 'bytecode': {'value': 1, 'size': 3}},
+        'ind_hl': {'type': 'indirect_register', 'register': 'hl', 'bytecode': {'value': 2, 'size': 3},
                    'offset': {'size': 8, 'byte_align': True}},
-        'imm': {'type': 'numeric', 'bytecode': {'value': 3, 'size': 2}, 'argument': {'size': 16, 'byte_align': True}},
+        'imm': {'type': 'numeric', 'bytecode': {'value': 3, 'size': 3}, 'argument': {'size': 16, 'byte_align': True}},
+        # written "@hl": operand text that contains the character placeholders start with
+        'r_at': {'type': 'register', 'register': 'hl', 'bytecode': {'value': 4, 'size': 3},
+                 'decorator': {'type': 'at', 'is_prefix': True}},
     }},
 }
 # mnemonic -> operand sets; t12 is 12 bits, h3 is 3 bits: steps that are not whole bytes
@@ -149,7 +152,7 @@ def _macro_variant(draw, nops_choices=(0, 1, 1, 2, 2), like=None, allow_bad=True
                     i = draw(st.sampled_from(numeric_like))
                     slots.append(f'@ARG({i})')
                 else:
-                    slots.append(draw(st.sampled_from(['a', 'x', '[hl]', '[hl + 2]', '77'])))
+                    slots.append(draw(st.sampled_from(['a', 'x', '[hl]', '[hl + 2]', '77', '@hl'])))
         steps.append(mn + (' ' + ', '.join(slots) if slots else ''))
     if bad and nops:
         i = draw(st.integers(0, nops))          # index == nops is out of range
@@ -207,6 +210,8 @@ def _cases(draw, tier):
 @st.composite
 def _operand(draw, sname, labels):
     if sname in ('imm8',):
+        if draw(st.integers(0, 9)) == 0:
+            return {'k': 'expr', 'e': ['num', ord('@'), 'chr']}
         return {'k': 'expr', 'e': isagen.value_ast(draw, draw(st.integers(0, 255)), None)}
     if sname == 'addr':
         if draw(st.booleans()):
@@ -226,7 +231,9 @@ def _operand(draw, sname, labels):
         if draw(st.integers(0, 3)) == 0:
             e = ['bin', '+', e, ['num', draw(st.integers(0, 3)), 'dec']]
         return {'k': 'expr', 'e': e}
-    k = draw(st.integers(0, 4))
+    k = draw(st.integers(0, 5))
+    if k == 5:
+        return {'k': 'reg', 'r': 'hl', 'deco': ['at', True]}
     if k == 0:
         return {'k': 'reg', 'r': 'a', 'deco': None}
     if k == 1:
